@@ -625,16 +625,14 @@ inline bool get_value(const std::string& source)
 template<typename T>
 T fast_atoi(const char *str, const char term='\0')
 {
-	T retval(0);
-	if (*str == '-')	// accumulate negatively so that the most negative value is reachable
-	{
-		for (++str; *str != term; ++str)
-			retval = retval * 10 - (*str - '0');
-		return retval;
-	}
+	// accumulate unsigned: the most negative value is reachable and over-long digit strings wrap instead of overflowing
+	typename std::make_unsigned<T>::type retval(0);
+	const bool negative(*str == '-');
+	if (negative)
+		++str;
 	for (; *str != term; ++str)
-		retval = retval * 10 + (*str - '0');
-	return retval;
+		retval = static_cast<typename std::make_unsigned<T>::type>(retval * 10U + static_cast<unsigned>(*str - '0'));
+	return static_cast<T>(negative ? 0U - retval : retval);
 }
 
 //----------------------------------------------------------------------------------------
